@@ -37,6 +37,16 @@ func genAddrs(r *rand.Rand, n int) []string {
 	out := make([]string, n)
 	for k := range out {
 		out[k] = fmt.Sprintf("/ip4/%d.%d.%d.%d/tcp/%d", 1+r.Intn(220), r.Intn(256), r.Intn(256), r.Intn(256), 1+r.Intn(65535))
+		// address strings are carried as the provider wrote them: valid multiaddrs in a spelling other than the
+		// canonical one among them
+		switch r.Intn(18) {
+		case 0:
+			out[k] += "/"
+		case 1:
+			out[k] = fmt.Sprintf("/ip6/0:0:0:0:0:0:0:%x/tcp/%d", 1+r.Intn(0xfffe), 1+r.Intn(65535))
+		case 2:
+			out[k] += "/ipfs/12D3KooWHHzSeKaY8xuZVzkLbKFfvNgPPeKhFBGrMbNzbm5akpqu"
+		}
 	}
 	return out
 }
